@@ -34,6 +34,11 @@ func c12Race(r *Result, env *engineEnv, rng randLike, n int) {
 	delay := time.Duration(rng.IntN(400)) * time.Microsecond
 	first := true
 	var mu sync.Mutex
+	// staged variant (1 in 3): the engine's first write waits (at most 15ms) until a second Start has read the plan,
+	// and that Start then pauses after its read long enough for the plan to finish: the read-then-check window
+	staged := n%3 == 2
+	secondRead := make(chan struct{})
+	reads := 0
 	env.spy.hook = func(e *Event) {
 		mu.Lock()
 		f := first && e.L == "wPlan"
@@ -41,18 +46,38 @@ func c12Race(r *Result, env *engineEnv, rng randLike, n int) {
 			first = false
 		}
 		mu.Unlock()
-		if f {
+		if f && staged {
+			select {
+			case <-secondRead:
+			case <-time.After(15 * time.Millisecond):
+			}
+		} else if f {
 			time.Sleep(delay) // the plan is not yet Running in storage while other Starts arrive
 		}
 	}
-	defer func() { env.spy.hook = nil }()
+	if staged {
+		env.spy.readHook = func(uuid.UUID) {
+			mu.Lock()
+			reads++
+			nr := reads
+			mu.Unlock()
+			if nr == 2 {
+				close(secondRead)
+				time.Sleep(25 * time.Millisecond)
+			}
+		}
+	}
+	defer func() { env.spy.hook, env.spy.readHook = nil, nil }()
 	p, err := env.submit(ps, 0)
 	if err != nil {
 		r.finding(Finding{Kind: "crash", Clause: "C12.submit", Text: err.Error()})
 		return
 	}
 	k := 2 + rng.IntN(3)
-	desc := map[string]any{"kind": "racing starts", "callers": k, "delayUs": delay.Microseconds(), "spec": ps}
+	desc := map[string]any{"kind": "racing starts", "callers": k, "delayUs": delay.Microseconds(), "staged": staged, "spec": ps}
+	if staged {
+		r.count("race:staged read-then-finish window")
+	}
 	breadcrumb(desc)
 	var wg sync.WaitGroup
 	errs := make([]error, k)
@@ -269,6 +294,7 @@ func c12Stale(r *Result, rng randLike, n int) {
 	ps := genSmallSpec(rng, fmt.Sprintf("st%d.", n))
 	desc := map[string]any{"kind": "stale submission", "maxSubmit": "60ms", "spec": ps}
 	breadcrumb(desc)
+	t0 := time.Now()
 	fresh, err1 := env.submit(ps, 0)
 	ps2 := genSmallSpec(rng, fmt.Sprintf("st%d.b.", n))
 	old, err2 := env.submit(ps2, 1)
@@ -276,7 +302,9 @@ func c12Stale(r *Result, rng randLike, n int) {
 		r.finding(Finding{Kind: "crash", Clause: "C12.submit", Text: fmt.Sprint(err1, err2)})
 		return
 	}
-	if err := env.ws.Start(context.Background(), fresh.ID); err != nil {
+	if err := env.ws.Start(context.Background(), fresh.ID); err != nil && time.Since(t0) > 40*time.Millisecond {
+		r.count("fresh-start-too-late-to-judge") // a loaded machine took most of the 60ms between Submit and Start
+	} else if err != nil {
 		r.finding(Finding{Kind: "monitor", Clause: "C12.fresh_submission_startable", Text: "a fresh submission could not be started: " + err.Error(), Case: desc})
 	}
 	wctx, cancel := context.WithTimeout(context.Background(), 15*time.Second)
